@@ -256,4 +256,73 @@ def rawSettingsByIndex (c) (ss : List Setting) := settingsMap c ss .const false 
 def settings (c) (ss : List Setting) := settingsMap c ss .name true true
 def settingsByIndex (c) (ss : List Setting) := settingsMap c ss .const true true
 
+/-! ### the per-object cache of the four views, and access histories on one object
+
+`raw_settings`, `raw_settings_by_index`, `settings`, `settings_by_index` are computed on first access and
+kept in `self._raw_settings` … (beacon.py 945-947, 966-968, 984-986, 1002-1004); `settings_map`,
+`setting_enums`, `max_setting_enum`, `settings_tuple` do not read or write the cache. -/
+
+/-- one access to a `BeaconConfig` object -/
+inductive Op
+  | rawSettings | rawSettingsByIndex | settings | settingsByIndex
+  | settingsMap (it : IndexType) (pretty parse : Bool)
+  | settingEnums | maxSettingEnum | settingsTuple
+  deriving DecidableEq, Repr
+
+inductive Answer
+  | map (m : Py (List (Key × Val)))
+  | enums (l : List Nat)
+  | max (m : Py Nat)
+  | tuple (ss : List Setting)
+  deriving DecidableEq
+
+/-- the four `self._…` attributes (`none` = Python `None`) -/
+structure Cache where
+  rawSettings : Option (List (Key × Val)) := none
+  rawSettingsByIndex : Option (List (Key × Val)) := none
+  settings : Option (List (Key × Val)) := none
+  settingsByIndex : Option (List (Key × Val)) := none
+  deriving DecidableEq
+
+/-- `if self._x is None: self._x = <compute>` / `return self._x`; when `<compute>` raises the attribute stays `None` -/
+def cachedView (slot : Option (List (Key × Val))) (compute : Py (List (Key × Val))) :
+    Py (List (Key × Val)) × Option (List (Key × Val)) :=
+  match slot with
+  | some m => (.ok m, some m)
+  | none =>
+    match compute with
+    | .ok m => (.ok m, some m)
+    | .error e => (.error e, none)
+
+/-- one access on an object whose cache is `c`: the answer and the new cache -/
+def access (content : Nat → Val → Py Val) (ss : List Setting) (c : Cache) : Op → Answer × Cache
+  | .rawSettings =>
+    let r := cachedView c.rawSettings (settingsMap content ss .name false true)
+    (.map r.1, { c with rawSettings := r.2 })
+  | .rawSettingsByIndex =>
+    let r := cachedView c.rawSettingsByIndex (settingsMap content ss .const false true)
+    (.map r.1, { c with rawSettingsByIndex := r.2 })
+  | .settings =>
+    let r := cachedView c.settings (settingsMap content ss .name true true)
+    (.map r.1, { c with settings := r.2 })
+  | .settingsByIndex =>
+    let r := cachedView c.settingsByIndex (settingsMap content ss .const true true)
+    (.map r.1, { c with settingsByIndex := r.2 })
+  | .settingsMap it pretty parse => (.map (settingsMap content ss it pretty parse), c)
+  | .settingEnums => (.enums (settingEnums ss), c)
+  | .maxSettingEnum => (.max (maxSettingEnum ss), c)
+  | .settingsTuple => (.tuple ss, c)
+
+/-- the answer of the same access on a fresh object -/
+def answer (content : Nat → Val → Py Val) (ss : List Setting) (op : Op) : Answer :=
+  (access content ss {} op).1
+
+/-- a sequence of accesses on one object: all answers and the final cache -/
+def runHistory (content : Nat → Val → Py Val) (ss : List Setting) : Cache → List Op → List Answer × Cache
+  | c, [] => ([], c)
+  | c, op :: ops =>
+    let r := access content ss c op
+    let rest := runHistory content ss r.2 ops
+    (r.1 :: rest.1, rest.2)
+
 end C02
